@@ -1,0 +1,56 @@
+//go:build verif
+
+package rollout
+
+import (
+	"github.com/openkruise/rollouts/api/v1beta1"
+	"github.com/openkruise/rollouts/pkg/trafficrouting"
+	"github.com/openkruise/rollouts/pkg/util"
+	"k8s.io/apimachinery/pkg/runtime"
+	"k8s.io/client-go/tools/record"
+	"sigs.k8s.io/controller-runtime/pkg/client"
+	"sigs.k8s.io/controller-runtime/pkg/client/fake"
+)
+
+// VerifNewReconciler builds a RolloutReconciler over the given client the way
+// SetupWithManager does (verification harness only; events are discarded).
+func VerifNewReconciler(cli client.Client, scheme *runtime.Scheme) *RolloutReconciler {
+	rec := &record.FakeRecorder{}
+	tm := trafficrouting.NewTrafficRoutingManager(cli)
+	return &RolloutReconciler{
+		Client:                cli,
+		Scheme:                scheme,
+		Recorder:              rec,
+		finder:                util.NewControllerFinder(cli),
+		trafficRoutingManager: tm,
+		canaryManager:         &canaryReleaseManager{Client: cli, trafficRoutingManager: tm, recorder: rec},
+		blueGreenManager:      &blueGreenReleaseManager{Client: cli, trafficRoutingManager: tm, recorder: rec},
+	}
+}
+
+// VerifSetGracePeriodSeconds sets the package default grace period and returns the old value.
+func VerifSetGracePeriodSeconds(s int32) int32 {
+	old := defaultGracePeriodSeconds
+	defaultGracePeriodSeconds = s
+	return old
+}
+
+// VerifRolloutHash returns the value calculateRolloutHash writes into the rollout-hash annotation.
+func VerifRolloutHash(rollout *v1beta1.Rollout, scheme *runtime.Scheme) (string, error) {
+	clone := rollout.DeepCopy()
+	clone.ResourceVersion = ""
+	cli := fake.NewClientBuilder().WithScheme(scheme).WithObjects(clone.DeepCopy()).Build()
+	r := &RolloutReconciler{Client: cli, Scheme: scheme}
+	if err := r.calculateRolloutHash(clone); err != nil {
+		return "", err
+	}
+	return clone.Annotations[util.RolloutHashAnnotation], nil
+}
+
+// VerifNextTask exposes the finalising task tables.
+func VerifNextTask(blueGreen bool, reason string, current v1beta1.FinalisingStepType) v1beta1.FinalisingStepType {
+	if blueGreen {
+		return nextBlueGreenTask(reason, current)
+	}
+	return nextCanaryTask(reason, current)
+}
